@@ -68,14 +68,23 @@ Definition starts_squash (b : pyval) : res bool :=
   | x :: _ => s <- as_str x ;; Ok (prefixb squash_prefix s)
   end.
 
-(** the `squashed` dict *)
-Definition sq_get (m : list (Z * Z)) (k : Z) : Z :=
-  match find (fun p => Z.eqb (fst p) k) m with Some p => snd p | None => k end.
+(** the `squashed` dict (insertion-ordered, keys unique) *)
+Definition sq_find (m : list (Z * Z)) (k : Z) : option Z :=
+  match find (fun p => Z.eqb (fst p) k) m with Some p => Some (snd p) | None => None end.
 Fixpoint sq_set (k v : Z) (m : list (Z * Z)) : list (Z * Z) :=
   match m with
   | [] => [(k, v)]
   | (k', v') :: r => if Z.eqb k k' then (k', v) :: r else (k', v') :: sq_set k v r
   end.
+(** `while node in squashed: node = squashed[node]` (repaired code, commit 03eb080).  The loop is modelled
+    with fuel; [length squashed + 1] steps suffice whenever the dict is acyclic, which is an invariant of
+    the loop (proved in SquashProofs: sq_root_pass); running out of fuel would be a non-terminating loop. *)
+Fixpoint sq_root (fuel : nat) (m : list (Z * Z)) (k : Z) : res Z :=
+  match fuel with
+  | O => Err EOutOfFuel
+  | Datatypes.S f => match sq_find m k with None => Ok k | Some v => sq_root f m v end
+  end.
+Definition sq_fuel (m : list (Z * Z)) : nat := Datatypes.S (length m).
 
 (** nodes[keep][attr] += nodes[keep]['contraction'][remove][attr] *)
 Definition concat_attr (keep rm : Z) (g : graph) (attr : pystr) : res graph :=
@@ -97,8 +106,9 @@ Definition squash_step (st : sqstate) (e : Z * Z * pyval) : res sqstate :=
   let '(a, b, bond) := e in
   is <- starts_squash bond ;;
   if negb is then Ok st else
-  let keep := sq_get sq a in
-  let rm := sq_get sq b in
+  keep <- sq_root (sq_fuel sq) sq a ;;
+  rm <- sq_root (sq_fuel sq) sq b ;;
+  if Z.eqb keep rm then Ok st else             (* redundant pair: both atoms are already one *)
   let sq' := sq_set rm keep sq in
   g1 <- contracted squash_self_loops g keep rm ;;
   g2 <- fold_res (concat_attr keep rm) squash_concat_attrs g1 ;;
